@@ -1,5 +1,6 @@
 import Scion.Model.Addr
 import Scion.Proofs.AddrDigits
+import Scion.Proofs.AddrParse
 import Scion.Gen.AddrText
 /-!
 # C46 — ISD-AS and address text formats round-trip
@@ -227,8 +228,296 @@ theorem parse_svc_anycast_suffix (h : Nat) (hn : h = svcDS ∨ h = svcCS ∨ h =
     parseSVC (fmtSVC h ++ sufA) = .ok h := by
   rcases hn with rfl | rfl | rfl <;> decide
 
+private theorem svcOpen_eq : "<SVC:0x".toList = ['<', 'S', 'V', 'C', ':', '0', 'x'] := by decide
+private theorem nameWildcard_eq : nameWildcard = ['W', 'i', 'l', 'd', 'c', 'a', 'r', 'd'] := by decide
+
+private theorem parse_unnamed_text (a b c d : Char) :
+    parseSVC (['<', 'S', 'V', 'C', ':', '0', 'x'] ++ [a, b, c, d] ++ ['>']) = .error .form ∧
+    parseSVC (['<', 'S', 'V', 'C', ':', '0', 'x'] ++ [a, b, c, d] ++ ['>'] ++ sufM) = .error .form := by
+  constructor <;>
+  simp [parseSVC, trimSuffix?, List.isSuffixOf, List.isPrefixOf, sufA, sufM, parseSVCBase, nameDS, nameCS,
+    nameWildcard_eq]
+
+/-- every other 16-bit value prints as `<SVC:0x….>` (`_M` appended when the multicast bit is
+    set) … -/
+theorem fmt_unnamed_svc (h : Nat) (hn : ¬ NamedSVC h) :
+    fmtSVC h = "<SVC:0x".toList ++ hex4 h ++ ['>'] ++ (if svcIsMulticast h then sufM else []) := by
+  have hb : svcBase h ≠ svcDS ∧ svcBase h ≠ svcCS ∧ svcBase h ≠ svcWildcard := by
+    simp only [NamedSVC, svcDS, svcCS, svcWildcard, svcMcast] at hn
+    simp only [svcBase, svcIsMulticast, svcDS, svcCS, svcWildcard, svcMcast]
+    by_cases hm : h / 32768 % 2 = 1
+    · simp only [hm, decide_true, if_true]; omega
+    · simp only [hm, decide_false, Bool.false_eq_true, if_false]; omega
+  unfold fmtSVC svcBaseString
+  simp only [hb.1, hb.2.1, hb.2.2, if_false]
+  split <;> simp
+
+/-- … which `ParseSVC` rejects (by design there is no round trip for unnamed services) -/
+theorem parse_unnamed_svc_rejected (h : Nat) (hn : ¬ NamedSVC h) :
+    parseSVC (fmtSVC h) = .error .form := by
+  rw [fmt_unnamed_svc h hn, svcOpen_eq]
+  have := parse_unnamed_text (digitChar (h / 4096 % 16)) (digitChar (h / 256 % 16))
+    (digitChar (h / 16 % 16)) (digitChar (h % 16))
+  split
+  · exact this.2
+  · simpa [hex4] using this.1
+
+
+/-- `ParseSVC` accepts exactly `NAME`, `NAME_A` (anycast) and `NAME_M` (multicast) for the three
+    names, and returns the named value -/
+theorem parseSVC_ok_iff (s : Str) (v : Nat) :
+    parseSVC s = .ok v ↔
+      ∃ n base, (n = nameDS ∧ base = svcDS ∨ n = nameCS ∧ base = svcCS ∨
+                 n = nameWildcard ∧ base = svcWildcard) ∧
+        (s = n ∧ v = base ∨ s = n ++ sufA ∧ v = base ∨ s = n ++ sufM ∧ v = base + svcMcast) :=
+  Scion.Addr.parseSVC_ok_iff s v
+
+/-! ## Parsing rejects out-of-range numbers and malformed text instead of returning a different value
+
+Exact characterisations of what is accepted, against an independent denotation of digit strings
+(`ofDigits`): a parser returns `v` only for text that denotes `v`; everything else is an error. -/
+
+/-- `s` is a non-empty string of base-`b` digits (either letter case) whose value `v` fits `bits` bits -/
+def Denotes (b bits : Nat) (s : Str) (v : Nat) : Prop :=
+  s ≠ [] ∧ (∀ c ∈ s, IsDigit b c) ∧ ofDigits b s = v ∧ v < 2 ^ bits
+
+theorem parseISD_ok_iff (s : Str) (v : Nat) : parseISD s = .ok v ↔ Denotes 10 16 s v :=
+  parseUint_ok_iff 10 16 (by omega) s v
+
+theorem parseAS_ok_iff (c : Char) (s : Str) (v : Nat) :
+    parseAS [c] s = .ok v ↔
+      (c ∉ s ∧ Denotes 10 32 s v) ∨
+      ∃ a b d x y z, s = a ++ c :: (b ++ c :: d) ∧ c ∉ a ∧ c ∉ b ∧ c ∉ d ∧
+        Denotes 16 16 a x ∧ Denotes 16 16 b y ∧ Denotes 16 16 d z ∧
+        v = x * 2 ^ 32 + y * 2 ^ 16 + z := by
+  obtain ⟨hj, hno⟩ := split_single_spec c s
+  constructor
+  · intro h
+    unfold parseAS at h
+    split at h
+    · rename_i p hp
+      rw [hp] at hj hno
+      simp only [joinWith] at hj
+      subst hj
+      exact Or.inl ⟨hno p (by simp), (parseUint_ok_iff 10 32 (by omega) p v).1 h⟩
+    · rename_i a b d hp
+      rw [hp] at hj hno
+      simp only [joinWith] at hj
+      right
+      simp only [asPartBase, asPartBits] at h
+      split at h
+      · cases h
+      · rename_i x hx
+        split at h
+        · cases h
+        · rename_i y hy
+          split at h
+          · cases h
+          · rename_i z hz
+            have dx := (parseUint_ok_iff 16 16 (by omega) a x).1 hx
+            have dy := (parseUint_ok_iff 16 16 (by omega) b y).1 hy
+            have dz := (parseUint_ok_iff 16 16 (by omega) d z).1 hz
+            split at h
+            · cases h
+            · cases h
+              refine ⟨a, b, d, x, y, z, hj.symm, hno a (by simp), hno b (by simp), hno d (by simp),
+                dx, dy, dz, ?_⟩
+              have := dx.2.2.2; have := dy.2.2.2; have := dz.2.2.2
+              omega
+    · cases h
+  · rintro (⟨hc, hd⟩ | ⟨a, b, d, x, y, z, rfl, ha, hb, hd, dx, dy, dz, rfl⟩)
+    · unfold parseAS
+      rw [split_single_notin c s hc]
+      exact (parseUint_ok_iff 10 32 (by omega) s v).2 hd
+    · unfold parseAS
+      rw [split_single_append c a _ ha, split_single_append c b _ hb, split_single_notin c d hd]
+      simp only [asPartBase, asPartBits]
+      rw [(parseUint_ok_iff 16 16 (by omega) a x).2 dx, (parseUint_ok_iff 16 16 (by omega) b y).2 dy,
+        (parseUint_ok_iff 16 16 (by omega) d z).2 dz]
+      have := dx.2.2.2; have := dy.2.2.2; have := dz.2.2.2
+      have h1 : ¬ maxAS < (x * 2 ^ 16 + y) * 2 ^ 16 + z := by simp only [maxAS]; omega
+      have e : (x * 2 ^ 16 + y) * 2 ^ 16 + z = x * 2 ^ 32 + y * 2 ^ 16 + z := by omega
+      rw [e] at h1
+      simp only [e, h1, if_false]
+
+theorem parseIA_ok_iff (s : Str) (v : Nat) :
+    parseIA s = .ok v ↔
+      ∃ a b i as, s = a ++ '-' :: b ∧ '-' ∉ a ∧ '-' ∉ b ∧ parseISD a = .ok i ∧
+        parseAS [':'] b = .ok as ∧ v = i * 2 ^ 48 + as := by
+  obtain ⟨hj, hno⟩ := split_single_spec '-' s
+  constructor
+  · intro h
+    unfold parseIA at h
+    split at h
+    · rename_i a b hp
+      rw [hp] at hj hno
+      simp only [joinWith] at hj
+      split at h
+      · cases h
+      · rename_i i hi
+        split at h
+        · cases h
+        · rename_i as has
+          cases h
+          refine ⟨a, b, i, as, hj.symm, hno a (by simp), hno b (by simp), hi, has, ?_⟩
+          have : as < 2 ^ 48 := by
+            rcases (parseAS_ok_iff ':' b as).1 has with ⟨_, h⟩ | ⟨_, _, _, x, y, z, _, _, _, _, dx, dy, dz, rfl⟩
+            · have := h.2.2.2; omega
+            · have := dx.2.2.2; have := dy.2.2.2; have := dz.2.2.2; omega
+          simp only [iaFrom]
+          omega
+    · cases h
+  · rintro ⟨a, b, i, as, rfl, ha, hb, hi, has, rfl⟩
+    unfold parseIA
+    rw [split_single_append '-' a _ ha, split_single_notin '-' b hb]
+    have : as < 2 ^ 48 := by
+      rcases (parseAS_ok_iff ':' b as).1 has with ⟨_, h⟩ | ⟨_, _, _, x, y, z, _, _, _, _, dx, dy, dz, rfl⟩
+      · have := h.2.2.2; omega
+      · have := dx.2.2.2; have := dy.2.2.2; have := dz.2.2.2; omega
+    have e : as % 2 ^ 48 = as := Nat.mod_eq_of_lt this
+    simp only [hi, has, iaFrom, e]
+
+/-! ## Host addresses and full SCION addresses -/
+
+/-- what is assumed of Go's `net/netip` text form (tied by T1 through the engine's oracle) -/
+structure IPCodecOK {IP : Type} (k : IPCodec IP) : Prop where
+  /-- `netip.ParseAddr(ip.String()) = ip` -/
+  roundtrip : ∀ a, k.parse (k.fmt a) = some a
+  /-- an IP literal is not a service name -/
+  notSVC : ∀ a v, parseSVC (k.fmt a) ≠ .ok v
+  /-- needed for `[…]:port` only: no brackets inside the literal (zones are the caller's business) -/
+  noBracket : ∀ a, '[' ∉ k.fmt a ∧ ']' ∉ k.fmt a
+
+/-- hosts with a text form that parses: IP addresses and the named services -/
+def HostOK {IP : Type} : Host IP → Prop
+  | .none => False
+  | .ip _ => True
+  | .svc s => NamedSVC s
+
+theorem parse_format_host {IP : Type} (k : IPCodec IP) (hk : IPCodecOK k) (h : Host IP)
+    (hh : HostOK h) : parseHost k (fmtHost k h) = .ok h := by
+  cases h with
+  | none => exact absurd hh (by simp [HostOK])
+  | ip a =>
+    unfold parseHost fmtHost
+    cases hp : parseSVC (k.fmt a) with
+    | ok v => exact absurd hp (hk.notSVC a v)
+    | error e => simp [hk.roundtrip a]
+  | svc s =>
+    unfold parseHost fmtHost
+    simp [parse_format_svc s hh]
+
+private theorem fmtSVC_named_chars (s : Nat) (hs : NamedSVC s) :
+    ',' ∉ fmtSVC s ∧ '[' ∉ fmtSVC s ∧ ']' ∉ fmtSVC s := by
+  rcases hs with rfl | rfl | rfl | rfl | rfl | rfl <;> decide
+
+theorem parse_format_addr {IP : Type} (k : IPCodec IP) (hk : IPCodecOK k) (ia : Nat)
+    (hia : ia < 2 ^ 64) (h : Host IP) (hh : HostOK h) :
+    parseAddr k (fmtAddr k ia h) = .ok (ia, h) := by
+  have hc : ',' ∉ fmtIA ia := fun hm => not_IAChar_comma (mem_fmtIA ia ',' hm)
+  unfold parseAddr fmtAddr
+  have e : fmtIA ia ++ [','] ++ fmtHost k h = fmtIA ia ++ ',' :: fmtHost k h := by simp
+  rw [e, splitFirst_append ',' _ _ hc]
+  simp [parse_format_ia ia hia, parse_format_host k hk h hh]
+
+private theorem fmtHost_noBracket {IP : Type} (k : IPCodec IP) (hk : IPCodecOK k) (h : Host IP)
+    (hh : HostOK h) : '[' ∉ fmtHost k h ∧ ']' ∉ fmtHost k h := by
+  cases h with
+  | none => exact absurd hh (by simp [HostOK])
+  | ip a => exact hk.noBracket a
+  | svc s => exact (fmtSVC_named_chars s hh).2
+
+private theorem colon_bracket_notin_digits (n : Nat) :
+    ':' ∉ toDigits 10 n ∧ '[' ∉ toDigits 10 n ∧ ']' ∉ toDigits 10 n := by
+  refine ⟨?_, ?_, ?_⟩ <;> intro hm <;> obtain ⟨d, hd, h⟩ := mem_toDigits 10 (by omega) n _ hm <;>
+    (have hd' : d < 16 := by omega) <;> revert d <;> decide
+
+/-- `ParseAddrPort(FormatAddrPort(a, port)) = (a, port)` -/
+theorem parse_format_addrPort {IP : Type} (k : IPCodec IP) (hk : IPCodecOK k) (ia : Nat)
+    (hia : ia < 2 ^ 64) (h : Host IP) (hh : HostOK h) (port : Nat) (hp : port < 2 ^ 16) :
+    parseAddrPort k (fmtAddrPort k ia h port) = .ok ((ia, h), port) := by
+  have hb := fmtHost_noBracket k hk h hh
+  have hA1 : '[' ∉ fmtAddr k ia h := by
+    unfold fmtAddr
+    simp only [List.mem_append, List.mem_singleton, not_or]
+    exact ⟨⟨fun hm => not_IAChar_lbr (mem_fmtIA ia _ hm), by decide⟩, hb.1⟩
+  have hA2 : ']' ∉ fmtAddr k ia h := by
+    unfold fmtAddr
+    simp only [List.mem_append, List.mem_singleton, not_or]
+    exact ⟨⟨fun hm => not_IAChar_rbr (mem_fmtIA ia _ hm), by decide⟩, hb.2⟩
+  obtain ⟨hP1, hP2, hP3⟩ := colon_bracket_notin_digits port
+  -- the text is  '[' :: A ++ ']' :: ':' :: P
+  have e : fmtAddrPort k ia h port = '[' :: (fmtAddr k ia h ++ ']' :: ':' :: toDigits 10 port) := by
+    simp [fmtAddrPort]
+  have e2 : '[' :: (fmtAddr k ia h ++ ']' :: ':' :: toDigits 10 port) =
+      ('[' :: fmtAddr k ia h ++ [']']) ++ ':' :: toDigits 10 port := by simp
+  have hlast : lastIndex ':' ('[' :: (fmtAddr k ia h ++ ']' :: ':' :: toDigits 10 port)) =
+      some ((fmtAddr k ia h).length + 2) := by
+    rw [e2, lastIndex_append ':' _ _ hP1]; simp
+  have e3 : '[' :: (fmtAddr k ia h ++ ']' :: ':' :: toDigits 10 port) =
+      ('[' :: fmtAddr k ia h) ++ ']' :: (':' :: toDigits 10 port) := by simp
+  have hfirst : firstIndex ']' ('[' :: (fmtAddr k ia h ++ ']' :: ':' :: toDigits 10 port)) =
+      some ((fmtAddr k ia h).length + 1) := by
+    rw [e3, firstIndex_append ']' _ _ (by simp only [List.mem_cons, not_or]; exact ⟨by decide, hA2⟩)]
+    simp
+  have hsplit : splitHostPort ('[' :: (fmtAddr k ia h ++ ']' :: ':' :: toDigits 10 port)) =
+      some (fmtAddr k ia h, toDigits 10 port) := by
+    unfold splitHostPort
+    rw [hlast]
+    simp only [hfirst]
+    generalize fmtAddr k ia h = A at hA1 hA2
+    generalize toDigits 10 port = P at hP1 hP2 hP3
+    have l1 : ¬ (A.length + 1 + 1 = ('[' :: (A ++ ']' :: ':' :: P)).length) := by
+      simp only [List.length_cons, List.length_append]; omega
+    have d1 : List.drop 1 ('[' :: (A ++ ']' :: ':' :: P)) = A ++ ']' :: ':' :: P := rfl
+    have d2 : List.drop (A.length + 1 + 1) ('[' :: (A ++ ']' :: ':' :: P)) = ':' :: P := by
+      simp
+    have d3 : List.drop (A.length + 2 + 1) ('[' :: (A ++ ']' :: ':' :: P)) = P := by
+      simp
+    have t1 : List.drop 1 (List.take (A.length + 1) ('[' :: (A ++ ']' :: ':' :: P))) = A := by
+      simp
+    rw [d1, d2, d3, t1]
+    simp [hA1, hP2, hP3]
+  unfold parseAddrPort
+  rw [e, hsplit]
+  simp [parse_format_addr k hk ia hia h hh, parseUint_toDigits 10 16 port (by omega) (by omega) hp]
+
+/-! ## Separators of more than one character (stated; single-character case proved, the rest tied by T1) -/
+
+/-- separator strings for which the round trip is expected: no '-' and at least one character
+    the formatter never prints for a digit -/
+def SepStrOK (sep : Str) : Prop := '-' ∉ sep ∧ ∃ c ∈ sep, ∀ d, d < 16 → c ≠ digitChar d
+
+/-- full statement for arbitrary separator strings -/
+def parse_format_formatted_ia_anysep : Prop :=
+  ∀ (p : Bool) (sep : Str), SepStrOK sep → ∀ ia, ia < 2 ^ 64 →
+    parseFormattedIA ⟨p, sep⟩ (formatIA ⟨p, sep⟩ ia) = .ok ia
+
+/-- proved part: separators of length one.  Missing: `strings.Split` with a longer separator
+    (needs the argument that a separator containing a non-digit cannot start inside a digit
+    group); those separators are compared model-vs-implementation by the engine. -/
+theorem parse_format_formatted_ia_anysep_partial (p : Bool) (c : Char) (h : SepStrOK [c]) (ia : Nat)
+    (hia : ia < 2 ^ 64) : parseFormattedIA ⟨p, [c]⟩ (formatIA ⟨p, [c]⟩ ia) = .ok ia := by
+  obtain ⟨h1, c', hc', h2⟩ := h
+  simp only [List.mem_singleton] at h1 hc'
+  subst hc'
+  exact parse_format_formatted_ia_char p c' ⟨fun e => h1 e.symm, h2⟩ ia hia
+
 /-! ## Non-vacuity -/
 
+-- a (toy) IP codec meeting the assumptions: one address, written 1.2.3.4
+def toyCodec : IPCodec Unit := ⟨fun s => if s = "1.2.3.4".toList then some () else none, fun _ => "1.2.3.4".toList⟩
+example : IPCodecOK toyCodec where
+  roundtrip := by intro a; cases a; decide
+  notSVC := by
+    intro a v h
+    have e : parseSVC "1.2.3.4".toList = .error .form := by decide
+    simp only [toyCodec] at h
+    rw [e] at h
+    cases h
+  noBracket := by intro a; cases a; decide
+example : fmtAddrPort toyCodec 0x0001ff0000000110 (.svc (svcCS + svcMcast)) 80 =
+    "[1-ff00:0:110,CS_M]:80".toList := by decide
 example : SepOK '_' := ⟨by decide, by decide⟩
 example : OutsideHexDash '_' := ⟨by decide, by decide⟩
 example : SepArgOK (some ['_']) := ⟨by decide, by decide⟩
